@@ -155,6 +155,32 @@ def run_property(pid, tier="quick", replay=None, repo_root=None, write_evidence=
                             raise
                         except Exception as e:
                             results.append(unrecognised("KNOB", q, "results do not depend on `%s`" % knob, "rule failed: %s" % str(e)[:100]))
+        # a mutable default that is written into is call-history state
+        from .rules import mutable_default_rule
+        for q in getattr(mod, "ANCHORS", []):
+            if repo.has_func(q):
+                try:
+                    for r in mutable_default_rule(repo.func(q)):
+                        if r.key not in keys:
+                            results.append(r)
+                            keys.add(r.key)
+                except AnalysisError:
+                    raise
+                except Exception as e:
+                    results.append(unrecognised("STATE", q, "mutable defaults are not written into", "rule failed: %s" % str(e)[:100]))
+        # an ordered result must not be built by iterating an unordered set
+        from .rules import set_order_rule
+        for q in getattr(mod, "ANCHORS", []):
+            if repo.has_func(q):
+                try:
+                    for r in set_order_rule(repo.func(q)):
+                        if r.key not in keys:
+                            results.append(r)
+                            keys.add(r.key)
+                except AnalysisError:
+                    raise
+                except Exception:
+                    pass
         # optional numeric / array parameters are recognised as absent by identity with None, not by truth value
         from .rules import none_test_rule
         for q in getattr(mod, "ANCHORS", []):
@@ -266,7 +292,7 @@ def run_property(pid, tier="quick", replay=None, repo_root=None, write_evidence=
             equiv_note = "equivalence fallback crashed (%s: %s): verdicts unchanged" % (type(e).__name__, str(e)[:120])
     # spelling-based rules cannot tell a refactoring from a defect once a function has been rewritten: their VIOLATIONs are kept only
     # while every changed function is a first-order edit of its reference version (a deletion, or one replaced statement)
-    sem_rules = set(getattr(mod, "SEMANTIC_RULES", ())) | {"STATE", "R-SLICE0", "KNOB", "NONE-TEST"}
+    sem_rules = set(getattr(mod, "SEMANTIC_RULES", ())) | {"STATE", "R-SLICE0", "KNOB", "NONE-TEST", "SET-ORDER"}
     # every VIOLATION that is neither derived by an engine (semantic=True / SEMANTIC_RULES) nor an explicitly recognised deviation
     # (core.named) comes from comparing spellings and is subject to the rewrite gate
     gate_note = None
